@@ -80,7 +80,10 @@ class LG:
             (f"{{'k{m}': {p}.a{m}, 'j': ({p}.b, 2)}}['k{m}']", "dict"), (f"{p}.js{m}.Select(lambda j: j.pt + {p}.m)", "nested-diff"),
             (f"{p}.js{m}.Select(lambda {p}: {p}.pt * {m})", "nested-same"), (f"{p}.a{m} + {p}.g('lambda {p}: {p}.zz)')", "string-lambda"),
             (f"{p}.x[{m}:2]", "slice"), (f"[{p}.a{m}, {p}.b, ({p}.c, )]", "list"), (f"{p}.a{m} if {p}.b > {m} else {p}.c", "ifexp"),
-            (f"{p}.g(')', '(', ',', \"{m}]\")", "string-brackets"), (f"{p}.js{m}.Where(lambda {p}: {p}.pt > {m}).Select(lambda q: (q.a, q.b))", "two-nested"),
+            (f"{p}.g(')', '(', ',', \"{m}]\")", "string-brackets"),
+            # f-strings (tokenised into several tokens since python 3.12): literal parts with blanks, format specs, conversions
+            (f"{p}.g(f'AntiKt{{{p}.a{m}}}EM  Topo{m}')", "fstring"), (f"{p}.g(f'{{{p}.a{m}:03d}}|{{{p}.b!r:>8}}| lambda {p}: (')", "fstring-spec"),
+            (f"{p}.h{m}(f\"{{{p}.a{m}}}\" + f'x{{{p}.js{m}.Select(lambda j: j.pt)}}y')", "fstring-nested-lambda"), (f"{p}.js{m}.Where(lambda {p}: {p}.pt > {m}).Select(lambda q: (q.a, q.b))", "two-nested"),
         ]
         if multiline:
             forms = [
